@@ -52,6 +52,12 @@ def proof_cov(ctx, extra_trusted=None):
     return bad
 
 
+def _known_key(v):
+    """a harness string `Cxx KNOWN[<key>] …` names a recorded finding (known_findings.txt decides whether it is suppressed)"""
+    m = re.match(r"^\S+ KNOWN\[([^\]]+)\]", v)
+    return m.group(1) if m else None
+
+
 def judge(ctx, results, bad, engine, widen=None):
     """results: list of engine_run outputs. Violations judged by the harness's own oracle are in
     stats['violations'] (strings starting with the property id)."""
@@ -67,7 +73,8 @@ def judge(ctx, results, bad, engine, widen=None):
         for i in r.get("diffs", []):
             tie.append((r, i))
     for r, v in concrete[:10]:
-        common.report_violation(ctx, v, {"engine": engine, "what": v, "dir": r["dir"]})
+        common.report_violation(ctx, v, {"engine": engine, "what": v, "dir": r["dir"]}, key=_known_key(v))
+    concrete = [(r, v) for r, v in concrete if not (_known_key(v) and any(k["property"] == ctx.pid and k["key"] == _known_key(v) for k in common.known_findings()))]
     if not concrete and (tie or bad):
         found = []
         if widen:
@@ -77,6 +84,7 @@ def judge(ctx, results, bad, engine, widen=None):
                 found += [(r, v) for v in r["stats"].get("violations", []) if isinstance(v, str) and v.startswith(ctx.pid + " ")]
                 if found:
                     break
+        found = [(r, v) for r, v in found if not (_known_key(v) and any(k["property"] == ctx.pid and k["key"] == _known_key(v) for k in common.known_findings()))]
         for r, v in found[:5]:
             common.report_violation(ctx, v, {"engine": engine, "what": v, "dir": r["dir"], "found_by": "widened search after a broken tie"})
         if not found:
